@@ -134,7 +134,37 @@ func c17Pcrels(args []string) string {
 func TestVerifC17(t *testing.T) {
 	out := vh.OpenOut()
 	defer out.Close()
+	conds := map[string]func(uint32) bool{}
+	for i := range instFormats {
+		if f := instFormats[i].canDecode; f != nil {
+			n := runtime.FuncForPC(reflect.ValueOf(f).Pointer()).Name()
+			if k := strings.LastIndex(n, "."); k >= 0 {
+				n = n[k+1:]
+			}
+			conds[n] = f
+		}
+	}
 	for _, op := range vh.ReadOps() {
+		if len(op.Toks) == 3 && op.Toks[0] == "c17.arg" { // the real decodeArg on (kind, word): val | nil | panic
+			k, w := instArg(vh.U64(op.Toks[1])), uint32(vh.U64(op.Toks[2]))
+			out.Put(op.Idx, "%s", vh.Catch(func() string {
+				if decodeArg(k, w) == nil {
+					return "nil"
+				}
+				return "val"
+			}))
+			continue
+		}
+		if len(op.Toks) == 3 && op.Toks[0] == "c17.cond" { // a real canDecode predicate, by its linker name
+			f, ok := conds[op.Toks[1]]
+			if !ok {
+				out.Put(op.Idx, "no-such-predicate")
+				continue
+			}
+			w := uint32(vh.U64(op.Toks[2]))
+			out.Put(op.Idx, "%s", vh.Catch(func() string { return strconv.FormatBool(f(w)) }))
+			continue
+		}
 		if len(op.Toks) < 2 || op.Toks[0] != "c17.dec" {
 			continue
 		}
